@@ -1179,6 +1179,14 @@ func (w *pathWalker) walk(v ssa.Value, path string, sel bool, depth int) {
 						}
 					}
 				}
+				// the elements of a local array (the argument pack of a variadic call)
+				if ia, ok := ref.(*ssa.IndexAddr); ok && ia.Referrers() != nil {
+					for _, r2 := range *ia.Referrers() {
+						if st, ok := r2.(*ssa.Store); ok && st.Addr == ssa.Value(ia) {
+							w.walk(st.Val, "", false, depth+1)
+						}
+					}
+				}
 			}
 		}
 		return
@@ -1456,6 +1464,12 @@ func ruleArrivalOrder(r *Run) {
 			if c == nil {
 				continue
 			}
+			if strings.HasPrefix(name, "Store") {
+				// a flag raised by one goroutine of the query path for the others to see (`failed`):
+				// whoever reads it sees it or not depending on who got there first
+				counted[wordOf(c.Call.Args[0])] = r.P.pos(c.Pos())
+				continue
+			}
 			if !(strings.HasPrefix(name, "Add") || strings.HasPrefix(name, "Swap") || strings.HasPrefix(name, "CompareAndSwap") || strings.HasPrefix(name, "Or") || strings.HasPrefix(name, "And")) {
 				continue
 			}
@@ -1501,7 +1515,7 @@ func ruleArrivalOrder(r *Run) {
 				}
 				r.Check(!used(v), rule, fnName(fn), key, r.P.pos(ins.Pos()),
 					"the value read is not used",
-					"a word that is counted with an atomic read-modify-write on the query path ("+where+") is read back here ("+how+") and the value is used: it is the count as the other goroutines have left it at that moment, so what it decides (which of several concurrent batches is refused once a budget is used up) depends on the order in which they got there and differs from run to run for the same request")
+					"a word that is written atomically on the query path ("+where+": counted, or raised as a flag) is read back here ("+how+") and the value is used: it is the value as the other goroutines have left it at that moment, so what it decides (which of several concurrent batches is refused once a budget is used up, whether an answer is still parsed once a sibling has failed) depends on the order in which they got there and differs from run to run for the same request")
 			}
 		}
 	}
@@ -2135,4 +2149,182 @@ func ruleAssertedErrorNil(r *Run) {
 		}
 	}
 	r.AtLeast(rule, "places where a *gqlerrors.Error is taken out of an error interface", n, 1)
+}
+
+// ruleRequestContextSent (R13i.ctx): where a queryer gives a downstream request its context
+// (`request = request.WithContext(q.ctx)`), the request that is SENT is that one: the value handed
+// to the HTTP client is computed from the result of WithContext. WithContext returns a copy; a
+// copy kept for the middlewares only leaves the request on the wire with the background context,
+// and a service that goes silent while the client has gone away holds the handler for ever.
+func ruleRequestContextSent(r *Run) {
+	const rule = "R13i.ctx"
+	n := 0
+	for _, fn := range r.P.Funcs {
+		if !inModule(fn) {
+			continue
+		}
+		var withCtx []*ssa.Call
+		var sends []ssa.CallInstruction
+		for _, ins := range allInstrs(fn) {
+			ci, ok := ins.(ssa.CallInstruction)
+			if !ok {
+				continue
+			}
+			name := calleeName(ci.Common())
+			if c, isCall := ins.(*ssa.Call); isCall && name == "(*net/http.Request).WithContext" {
+				withCtx = append(withCtx, c)
+			}
+			if familyOf(name) == "(*net/http.Client).Do" || name == "(*net/http.Client).Do" {
+				sends = append(sends, ci)
+			}
+		}
+		if len(withCtx) == 0 || len(sends) == 0 {
+			continue
+		}
+		for _, snd := range sends {
+			n++
+			args := snd.Common().Args
+			var req ssa.Value
+			for _, a := range args {
+				if strings.HasSuffix(namedOf(derefType(a.Type())), "net/http.Request") {
+					req = a
+				}
+			}
+			good := false
+			if req != nil {
+				infl := influencers(req)
+				for _, w := range withCtx {
+					if infl[w] {
+						good = true
+					}
+				}
+			}
+			r.Check(good, rule, fnName(fn), "request sent carries the context", r.P.pos(snd.Pos()),
+				"the request handed to the HTTP client is computed from the result of WithContext",
+				"the function attaches a context to a copy of the request (WithContext returns a copy) but hands the HTTP client a request that is not computed from that copy: the sub-request goes out with the background context, is not aborted when the client goes away or its deadline passes, and a service that has gone silent holds the handler goroutine for ever")
+		}
+	}
+	r.AtLeast(rule, "downstream sends in functions that attach a context", n, 1)
+}
+
+// influencers: every value in the backward slice of v (operands, transitively, and what was
+// stored into the local cells it was loaded from).
+func influencers(v ssa.Value) map[ssa.Value]bool {
+	out := map[ssa.Value]bool{}
+	var walk func(v ssa.Value, depth int)
+	walk = func(v ssa.Value, depth int) {
+		if v == nil || out[v] || depth > 40 {
+			return
+		}
+		out[v] = true
+		if ins, ok := v.(ssa.Instruction); ok {
+			for _, op := range operandsOf(ins) {
+				walk(op, depth+1)
+			}
+		}
+		if al, ok := v.(*ssa.Alloc); ok {
+			for _, st := range storesTo(al) {
+				walk(st.Val, depth+1)
+			}
+		}
+	}
+	walk(v, 0)
+	return out
+}
+
+// ruleMergeGlobalState (R3h.merge): merging is a function of its inputs. Code reachable from
+// Merge writes no package-level variable and hands the address of none to a call (a shared
+// bytes.Buffer the SDL is printed into, a memo of the last merge): two gateways built at the
+// same time — or one after the other — would otherwise see each other's schema text, and whether
+// a set of schemas is accepted would depend on what else is being merged.
+func ruleMergeGlobalState(r *Run) {
+	const rule = "R3h.merge"
+	root := r.Anchor(rule, "merger.(ExtendMergerFunc).Merge")
+	if root == nil {
+		return
+	}
+	inMod := func(g *ssa.Global) bool {
+		return g.Pkg != nil && (g.Pkg.Pkg.Path() == modPath || strings.HasPrefix(g.Pkg.Pkg.Path(), modPath+"/"))
+	}
+	globalRoot := func(a ssa.Value) *ssa.Global {
+		for i := 0; i < 8; i++ {
+			switch x := a.(type) {
+			case *ssa.FieldAddr:
+				a = x.X
+			case *ssa.IndexAddr:
+				a = x.X
+			case *ssa.UnOp:
+				if x.Op != token.MUL {
+					return nil
+				}
+				a = x.X
+			case *ssa.Global:
+				if inMod(x) {
+					return x
+				}
+				return nil
+			default:
+				return nil
+			}
+		}
+		return nil
+	}
+	var fns []*ssa.Function
+	for fn := range r.P.CG.ReachableAll([]*ssa.Function{root}) {
+		if inModule(fn) {
+			fns = append(fns, fn)
+		}
+	}
+	sort.Slice(fns, func(i, j int) bool { return fnName(fns[i]) < fnName(fns[j]) })
+	n := 0
+	for _, fn := range fns {
+		for _, ins := range allInstrs(fn) {
+			var g *ssa.Global
+			what := ""
+			switch x := ins.(type) {
+			case *ssa.Store:
+				if g = globalRoot(x.Addr); g != nil {
+					what = "store to"
+				}
+			case *ssa.MapUpdate:
+				if g = globalRoot(x.Map); g != nil {
+					what = "map write on"
+				}
+			case ssa.CallInstruction:
+				for _, a := range x.Common().Args {
+					gg := globalRoot(a)
+					if gg == nil {
+						continue
+					}
+					// the ADDRESS of the variable (or of a part of it) is handed over — a loaded
+					// value is a read
+					if _, isPtr := a.Type().Underlying().(*types.Pointer); !isPtr {
+						continue
+					}
+					t := namedOf(derefType(a.Type()))
+					if _, isLoad := a.(*ssa.UnOp); isLoad {
+						// a pointer kept in a package variable: handing it on is a write when
+						// what it points to is a buffer, a builder, a pool — an object that exists
+						// to be written (a compiled regexp or a table is only read)
+						if !(t == "bytes.Buffer" || t == "strings.Builder" || t == "sync.Pool" || t == "sync.Map" || strings.HasPrefix(t, "bufio.") || strings.HasPrefix(t, "container/")) {
+							continue
+						}
+						g, what = gg, "call "+calleeDesc(x.Common())+" on the "+t+" kept in"
+						continue
+					}
+					if strings.HasPrefix(t, "sync.") || strings.HasPrefix(t, "sync/atomic.") {
+						continue // a lock or a once guards state, it is not the state
+					}
+					g, what = gg, "call "+calleeDesc(x.Common())+" with the address of"
+				}
+			}
+			if g == nil {
+				continue
+			}
+			n++
+			r.Bad(rule, fnName(fn), what+" package variable "+shortPkg(g.Pkg.Pkg.Path())+"."+g.Name(), r.P.pos(ins.Pos()),
+				"code reachable from Merge writes package-level state ("+what+" "+g.Name()+"): it outlives the merge and is shared by merges that run at the same time, so the text or the verdict of one merge can end up in another — whether a set of schemas is accepted then depends on what else is being merged")
+		}
+	}
+	r.OKTrivial(rule, "", "functions reachable from Merge", "-", strconv.Itoa(len(fns))+" functions scanned, "+strconv.Itoa(n)+" write(s) to package-level state")
 }
